@@ -200,6 +200,10 @@ type kase struct {
 	expect string // canonical expected dump for min/full forms of wf trees ("" = no claim)
 	class  string
 	id     int
+	// print/printf statement whose argument list is not parenthesised as a whole: the parser must
+	// not build a > comparison or a `cmd | getline` from tokens outside parentheses/brackets
+	printCheck bool
+	pclass     string
 }
 
 const funcDef = "\nfunction f(a, b, c) { }\n"
@@ -379,6 +383,12 @@ func main() {
 
 	// search oracle on the implementation alone
 	for _, c := range cases {
+		if c.printCheck {
+			rep.SearchEvals++
+			if f := printOracle(c); f != nil {
+				rep.Fail(*f)
+			}
+		}
 		if c.expect == "" {
 			continue
 		}
@@ -408,6 +418,59 @@ func oracle(c *kase) *hx.Failure {
 	}}
 }
 
+// exposedInPrint walks a print argument as the parser built it and reports a > comparison or a
+// `cmd | getline` that is not enclosed by a grouping node, a subscript or a call argument list:
+// the property says that inside print/printf an unparenthesised > is a redirection, never a
+// comparison, and the print grammar has no unparenthesised `cmd | getline`.
+func exposedInPrint(n *sx) string {
+	if !n.list || len(n.kids) == 0 {
+		return ""
+	}
+	switch n.head() {
+	case "group", "index", "call", "usercall", "multi":
+		return ""
+	case "in":
+		if len(n.kids) != 3 { // (i, j) in a: the subscripts are parenthesised
+			return ""
+		}
+	case "binary":
+		if len(n.kids) > 1 && n.kids[1].atom == "gt" {
+			return "a > comparison"
+		}
+	case "getline":
+		if len(n.kids) > 1 && !(n.kids[1].atom == "nil" && !n.kids[1].list) {
+			return "a `cmd | getline`"
+		}
+	}
+	for _, k := range n.kids {
+		if r := exposedInPrint(k); r != "" {
+			return r
+		}
+	}
+	return ""
+}
+
+func printOracle(c *kase) *hx.Failure {
+	impl := implAnswer(c)
+	if !strings.HasPrefix(impl, "ok ") {
+		return nil
+	}
+	n, err := parseSX(impl[3:])
+	if err != nil || len(n.kids) < 3 || (n.head() != "print" && n.head() != "printf") {
+		return nil
+	}
+	for _, a := range n.kids[3:] {
+		if what := exposedInPrint(a); what != "" {
+			return &hx.Failure{Class: c.pclass, Oracle: "inside print an unparenthesised > or | is never an operator of an argument", Detail: map[string]any{
+				"program": c.src, "context": c.ctx, "writing": c.form,
+				"expected": "a syntax error or a tree whose print arguments hold no unparenthesised > comparison / cmd | getline",
+				"got":      impl, "found": what + " outside parentheses in a print argument",
+			}}
+		}
+	}
+	return nil
+}
+
 func replay(o hx.Opts) int {
 	b, err := os.ReadFile(o.Replay)
 	if err != nil {
@@ -427,6 +490,17 @@ func replay(o hx.Opts) int {
 	src, _ := doc.Failure.Detail["program"].(string)
 	exp, _ := doc.Failure.Detail["expected"].(string)
 	c := &kase{src: src}
+	if found, _ := doc.Failure.Detail["found"].(string); found != "" {
+		c.pclass = doc.Failure.Class
+		f := printOracle(c)
+		fmt.Printf("program:  %s\nexpected: %s\ngot:      %s\n", strings.TrimSuffix(src, funcDef), exp, implAnswer(c))
+		if f != nil {
+			fmt.Println("still fails:", f.Detail["found"])
+			return 1
+		}
+		fmt.Println("passes now")
+		return 0
+	}
 	impl := implAnswer(c)
 	got := impl
 	if strings.HasPrefix(impl, "ok ") {
